@@ -320,9 +320,7 @@ theorem vcfColls_partition (chrom : List Char) (recs : List VcfRec) (hps : ∀ r
     rfl
   · have : ((groupByKey S).flatMap (collsOfGroup chrom)).flatMap (·.vars) = S := by
       rw [List.flatMap_assoc]
-      have := groupByKey_flatten S
-      rw [← this]
-      exact flatMap_congr_mem _ _ _ (fun g _ => collsOfGroup_vars chrom g)
+      exact (flatMap_congr_mem _ _ _ (fun g _ => collsOfGroup_vars chrom g)).trans (groupByKey_flatten S)
     rw [this]; exact hperm
   · intro c hc
     simp only [List.mem_flatMap] at hc
@@ -386,5 +384,83 @@ theorem vcfColls_partition (chrom : List Char) (recs : List VcfRec) (hps : ∀ r
     obtain ⟨k2, e2⟩ := key g2 c2 e hg2 hc2 he hep
     have : g1 = g2 := pairwise_lt_inj (fun g => ik g.1) _ hkeys g1 hg1 g2 hg2 (by simp only [k1, k2])
     rw [e1, e2, this]
+
+/-! ### all chromosomes -/
+
+theorem groupRuns_mem (recs : List VcfRec) : ∀ g ∈ groupRuns recs, ∀ r ∈ g.2, r ∈ recs ∧ r.chrom = g.1 := by
+  induction recs with
+  | nil => intro g hg; simp [groupRuns] at hg
+  | cons r rs ih =>
+    unfold groupRuns
+    cases hg : groupRuns rs with
+    | nil =>
+      intro g hg' x hx
+      simp only [List.mem_singleton] at hg'; subst hg'
+      simp only [List.mem_singleton] at hx; subst hx
+      exact ⟨by simp, rfl⟩
+    | cons g0 rest =>
+      obtain ⟨c, gl⟩ := g0
+      rw [hg] at ih
+      simp only
+      split
+      · rename_i hc
+        intro g hg' x hx
+        rcases List.mem_cons.mp hg' with rfl | h
+        · rcases List.mem_cons.mp hx with rfl | hx'
+          · exact ⟨by simp, hc.symm⟩
+          · have := ih (c, gl) (by simp) x hx'; exact ⟨List.mem_cons_of_mem _ this.1, this.2⟩
+        · have := ih g (List.mem_cons_of_mem _ h) x hx; exact ⟨List.mem_cons_of_mem _ this.1, this.2⟩
+      · intro g hg' x hx
+        rcases List.mem_cons.mp hg' with rfl | h
+        · simp only [List.mem_singleton] at hx; subst hx; exact ⟨by simp, rfl⟩
+        · have := ih g h x hx; exact ⟨List.mem_cons_of_mem _ this.1, this.2⟩
+
+theorem dictSet_mem (k : List Char) (v : List Coll) (d : List (List Char × List Coll)) :
+    ∀ p ∈ dictSet k v d, p = (k, v) ∨ p ∈ d := by
+  induction d with
+  | nil => intro p hp; simp only [dictSet, List.mem_singleton] at hp; exact Or.inl hp
+  | cons x xs ih =>
+    intro p hp
+    unfold dictSet at hp
+    split at hp
+    · rcases List.mem_cons.mp hp with h | h
+      · exact Or.inl h
+      · exact Or.inr (List.mem_cons_of_mem _ h)
+    · rcases List.mem_cons.mp hp with h | h
+      · exact Or.inr (by rw [h]; simp)
+      · rcases ih p h with h' | h'
+        · exact Or.inl h'
+        · exact Or.inr (List.mem_cons_of_mem _ h')
+
+/-- `convert_vcf_records_to_model` (code as it is) never fails on records with non-negative phase sets, and every
+    entry of its result is the collection list of one run of records of that chromosome (to which
+    `vcfColls_partition` applies). -/
+theorem convertVcf_total (recs : List VcfRec) (hps : ∀ r ∈ recs, ∀ n, r.ps = .val n → 0 ≤ n) :
+    ∃ out, convertVcf .current recs = some out
+      ∧ ∀ p ∈ out, ∃ g ∈ groupRuns recs, p.1 = g.1 ∧ vcfColls .current g.1 g.2 = some p.2 := by
+  unfold convertVcf
+  have hruns := groupRuns_mem recs
+  generalize groupRuns recs = runs at hruns
+  suffices h : ∀ (runs' : List (List Char × List VcfRec)) (acc : List (List Char × List Coll)),
+      (∀ g ∈ runs', g ∈ runs) → (∀ p ∈ acc, ∃ g ∈ runs, p.1 = g.1 ∧ vcfColls .current g.1 g.2 = some p.2) →
+      ∃ out, runs'.foldl (fun acc g =>
+          match acc, vcfColls .current g.1 g.2 with
+          | some d, some cs => some (dictSet g.1 cs d)
+          | _, _ => none) (some acc) = some out
+        ∧ ∀ p ∈ out, ∃ g ∈ runs, p.1 = g.1 ∧ vcfColls .current g.1 g.2 = some p.2 by
+    exact h runs [] (fun g hg => hg) (fun p hp => absurd hp (by simp))
+  intro runs'
+  induction runs' with
+  | nil => intro acc _ hacc; exact ⟨acc, rfl, hacc⟩
+  | cons g rest ih =>
+    intro acc hsub hacc
+    have hg : g ∈ runs := hsub g (by simp)
+    obtain ⟨cs, hcs, _⟩ := vcfColls_partition g.1 g.2 (fun r hr => hps r ((hruns g hg r hr).1))
+    simp only [List.foldl_cons, hcs]
+    apply ih (dictSet g.1 cs acc) (fun x hx => hsub x (List.mem_cons_of_mem _ hx))
+    intro p hp
+    rcases dictSet_mem g.1 cs acc p hp with h | h
+    · exact ⟨g, hg, by rw [h], by rw [h]; exact hcs⟩
+    · exact hacc p h
 
 end BioCantor.Proofs.Var
